@@ -64,7 +64,9 @@ pub struct TagSpec {
 }
 
 const NAME_CHARS: &[&str] = &["a", "b", "Z", "0", "9", "-", "_", "é", "ж", "名", "ß"];
-const VALUE_CHARS: &[&str] = &["a", "B", "1", " ", "#", ">", "<", "=", "/", "é", "→", "\t", ".", ":", ",", "&quot;", "x y", "</block>", "<block>", "\\", "\\", "x\\)", "y\\(x\\)"];
+const VALUE_CHARS: &[&str] = &["a", "B", "1", " ", "#", ">", "<", "=", "/", "é", "→", "\t", ".", ":", ",", "&quot;", "x y", "</block>", "<block>", "\\", "\\", "x\\)", "y\\(x\\)",
+    // the other kind of quote inside a quoted value (an odd or even number of them)
+    "'", "don't", "\"", "\"q\"", "it's", "'' '"];
 const SPACES: &[&str] = &[" ", "  ", "\t", " \t "];
 
 fn rand_name(rng: &mut Rng) -> String {
